@@ -708,8 +708,11 @@ class Model:
         n = seq_len(seq.term)
         outs = []
 
+        ordinal = key.split("#")[1]
+
         def inv_holds(state, kterm, tag):
             state.env["_k"] = V(kterm, INT)
+            state.env["_k" + ordinal] = V(kterm, INT)
             state.env["_n"] = V(n, INT)
             ts = []
             for i, e in enumerate(invs):
